@@ -4,7 +4,7 @@
  * Every stdio output call of qbe.c's emitters (printf / fputs / puts / putchar / fputc; all go to stdout) is routed,
  * by macro (/repo untouched), to a recorder that appends EVENTS to a small buffer:
  *     OE_CH   one character of literal text (format-string text, string literals of qbe.c, putchar arguments)
- *     OE_STR  a NAME: a C string handed over as data (v->u.name, f->name, "%s"); kept as the POINTER, the units state
+ *     OE_STR  a NAME: a C string handed over as data (an expression of type char *: v->u.name, f->name, "%s"); kept as the POINTER, the units state
  *             what the name must look like in their "assumes" (the names are identifiers / asm labels made elsewhere)
  *     OE_U64  "%llu": the decimal digits of an unsigned 64-bit number      OE_U32  "%u"      OE_D  "%d"
  *     OE_O3   "\\%03o" prints a backslash (recorded as OE_CH) and exactly three octal digits of the value (C11 7.21.6.1:
@@ -22,7 +22,8 @@
 #include <stdarg.h>
 #include <stdbool.h>
 
-enum { OE_CH = 1, OE_STR, OE_U64, OE_U32, OE_D, OE_O3, OE_G17 };
+enum { OE_CH = 1, OE_STR, OE_U64, OE_U32, OE_D, OE_O3, OE_G17,
+       OE_VAL, OE_NAME, OE_CLS /* one whole VAL / name / class printed by a callee that has its own unit (emit_stubs.h) */ };
 struct oev { int k; unsigned long long v; const void *p; };
 #ifndef OE_MAX
 #define OE_MAX 40
@@ -34,9 +35,9 @@ static unsigned xe_n;
 static bool oe_tox;                /* recorder primitives append to xe instead of oe (expectation side) */
 static bool oe_badfmt;             /* a conversion outside the model was used */
 
-/* names are recognised by address: every pointer registered here is recorded as OE_STR */
-#define OE_NAMES 4
-static const char *oe_name[OE_NAMES];
+/* literal text and names are told apart at COMPILE time (a string literal has array type, a name is a char *), so the
+   loop over a literal always runs over a constant string */
+#define OE_ISPTR(s) __builtin_types_compatible_p(__typeof__(s), char *)
 
 static void
 oe_ev(int k, unsigned long long v, const void *p)
@@ -52,22 +53,16 @@ oe_ev(int k, unsigned long long v, const void *p)
 
 static void oe_ch(int c) { oe_ev(OE_CH, (unsigned char)c, 0); }
 
-static bool
-oe_isname(const char *s)
-{
-	return s == oe_name[0] || s == oe_name[1] || s == oe_name[2] || s == oe_name[3];
-}
-
 static void
-oe_text(const char *s)
+oe_text(const char *s, int isname)
 {
 	unsigned i;
 
-	if (oe_isname(s)) {
+	if (isname) {
 		oe_ev(OE_STR, 0, s);
 		return;
 	}
-	for (i = 0; s[i]; i++)          /* literal text of qbe.c: concrete, at most OE_LIT characters */
+	for (i = 0; s[i]; i++)          /* literal text of qbe.c: a constant string */
 		oe_ch(s[i]);
 }
 
@@ -101,7 +96,7 @@ rec_printf(const char *f, ...)
 		} else if (f[0] == 'c') {
 			oe_ch(va_arg(ap, int));
 		} else if (f[0] == 's') {
-			oe_text(va_arg(ap, const char *));
+			oe_text(va_arg(ap, const char *), 1);
 		} else if (f[0] == '.' && f[1] == '1' && f[2] == '7' && f[3] == 'g') {
 			oe_ev(OE_G17, oe_dbits(va_arg(ap, double)), 0);
 			f += 3;
@@ -117,8 +112,8 @@ rec_printf(const char *f, ...)
 	return 0;
 }
 
-int rec_fputs(const char *s, FILE *fp) { (void)fp; oe_text(s); return 0; }
-int rec_puts(const char *s) { oe_text(s); oe_ch('\n'); return 0; }
+int rec_fputs(const char *s, int isname) { oe_text(s, isname); return 0; }
+int rec_puts(const char *s, int isname) { oe_text(s, isname); oe_ch('\n'); return 0; }
 int rec_putchar(int c) { oe_ch(c); return c; }
 int rec_fputc(int c, FILE *fp) { (void)fp; oe_ch(c); return c; }
 
@@ -128,7 +123,6 @@ oe_reset(void)
 	oe_n = xe_n = 0;
 	oe_tox = 0;
 	oe_badfmt = 0;
-	oe_name[0] = oe_name[1] = oe_name[2] = oe_name[3] = 0;
 }
 
 /* expectation-side primitives */
@@ -150,8 +144,8 @@ oe_same(void)
 }
 
 #define printf  rec_printf
-#define fputs   rec_fputs
-#define puts    rec_puts
+#define fputs(s, f)  rec_fputs(s, OE_ISPTR(s))
+#define puts(s)      rec_puts(s, OE_ISPTR(s))
 #define fputc   rec_fputc
 #undef putchar
 #define putchar rec_putchar
